@@ -25,7 +25,7 @@ SPEC_NAMES = {"forall", "exists", "implies", "old", "has", "get", "result", "iff
               "card", "is_some", "the", "select", "store", "subset", "inrange", "cls_is", "same_obj", "let",
               "dom_eq", "unchanged", "nth", "Seq", "contains", "distinct", "sub", "count_in", "spec_call", "pre",
               "image_has", "inj", "keys_of", "ghost", "concat", "empty_seq", "isNone", "notNone", "eq", "view_of",
-              "kind_of", "elems", "as_list"}
+              "kind_of", "elems", "as_list", "as_cls"}
 
 
 class Evaluator(Interp):
@@ -92,6 +92,8 @@ class Evaluator(Interp):
             q = self.cdb.class_alias(n)
             if q is not None and self.w.get_class(q) is not None:
                 return VClass(self.w.get_class(q))
+            if n in self.w.modules:
+                return VModule(n)
             raise Unsupported(f"unresolved name {n} in contract module {module}")
         r = self.w.resolve_name(module, n)
         r = self.w.deref_const(r)
@@ -139,7 +141,15 @@ class Evaluator(Interp):
 
     def e_Attribute(self, node, fr):
         base = self.eval(node.value, fr)
-        return self.getattr(base, node.attr, fr, node)
+        return self.apply_narrowing(node, self.getattr(base, node.attr, fr, node), fr)
+
+    def apply_narrowing(self, node, v, fr):
+        nr = getattr(fr, "narrowed", None)
+        if nr and isinstance(v, SV) and isinstance(v.ty, TObj) and not v.ty.exact:
+            q = nr.get(ast.dump(node))
+            if q is not None and self.w.is_subclass(q, v.ty.cls):
+                return SV(TObj(q, exact=len(self.w.subclasses(q)) == 1), v.term)
+        return v
 
     def getattr(self, base, attr: str, fr: Frame, node=None):
         if isinstance(base, VModule):
@@ -171,6 +181,20 @@ class Evaluator(Interp):
                 if c is not None and attr in c.class_attrs:
                     return self.eval(c.class_attrs[attr], Frame(c.module, pure=fr.pure))
             raise Unsupported(f"class attribute {ci.qname}.{attr}")
+        if isinstance(base, VBuiltin) and base.name == "superobj":
+            cur_cls, selfv = base.bound
+            if cur_cls is None or selfv is None:
+                raise Unsupported("super() outside a method")
+            dyn = selfv.ty.cls
+            mro = self.w.mro(dyn)
+            after = mro[mro.index(cur_cls) + 1:] if cur_cls in mro else mro[1:]
+            for q in after:
+                ci = self.w.get_class(q)
+                if ci is not None and attr in ci.methods:
+                    return VFunc(ci.methods[attr], bound=selfv, cls_ctx=q)
+                if attr == "__init__" and ci is not None and ci.is_dataclass:
+                    return VBuiltin("dcinit", bound=(q, selfv))
+            raise Unsupported(f"super().{attr} not found above {cur_cls}")
         if isinstance(base, VBuiltin):
             if base.name == "old_ns":
                 raise Unsupported("old namespace")
@@ -239,6 +263,9 @@ class Evaluator(Interp):
         t = obj.ty
         if isinstance(t, TRec) or t.exact:
             return t.cls
+        ic = self.cdb.interface_contract(t.cls, attr)
+        if ic is not None:
+            return ic[0]  # no fork: the call goes through the interface contract
         subs = self.w.subclasses(t.cls)
         # group subclasses by the implementation they resolve `attr` to
         impls: dict = {}
@@ -329,6 +356,8 @@ class Evaluator(Interp):
             if self.is_seq(a) or self.is_seq(b):
                 sa, sb = self.two_seqs(a, b)
                 return SV(sa.ty, seq_concat(sa.term, sb.term))
+        if isinstance(op, ast.Mult) and isinstance(a, PyList) and len(a.items) == 1 and isinstance(a.items[0], PyList) and not a.items[0].items:
+            return VGen("repeat_empty", n=self.coerce(b, TInt).term)
         if isinstance(op, ast.Mult):
             # ["0"] * n
             if self.is_seq(a) and isinstance(b, SV) and b.ty in num:
@@ -633,7 +662,7 @@ class Evaluator(Interp):
         if isinstance(base, VClass):
             return base  # Generic[...] subscription
         idx = self.eval(node.slice, fr)
-        return self.subscript(base, idx, fr, node)
+        return self.apply_narrowing(node, self.subscript(base, idx, fr, node), fr)
 
     def subscript(self, base, idx, fr, node=None):
         base = self.force(base, fr)
@@ -951,6 +980,8 @@ class Evaluator(Interp):
             self.exec_stmt(st, fr)
 
     def exec_stmt(self, st, fr: Frame):
+        if getattr(fr, "narrowed", None) and not isinstance(st, (ast.Return, ast.Assert, ast.If)):
+            fr.narrowed = {}  # expression narrowings do not survive statements that may change the heap
         m = getattr(self, "s_" + type(st).__name__, None)
         if m is None:
             raise Unsupported(f"statement {type(st).__name__} at line {st.lineno}")
@@ -997,6 +1028,7 @@ class Evaluator(Interp):
         c = self.truthy(self.eval(st.test, fr), fr)
         if not self.branch(c):
             self.raise_exc("AssertionError")
+        self.narrow(st.test, fr)
 
     def s_Assign(self, st, fr):
         try:
@@ -1129,9 +1161,83 @@ class Evaluator(Interp):
     def s_If(self, st, fr):
         c = self.truthy(self.eval(st.test, fr), fr)
         if self.branch(c):
+            self.narrow(st.test, fr)
             self.exec_block(st.body, fr)
         else:
+            self.narrow_not(st.test, fr)
             self.exec_block(st.orelse, fr)
+
+    def narrow_not(self, test, fr):
+        """`isinstance(x, T)` found false for a union-typed local: drop the alternatives T covers."""
+        if not (isinstance(test, ast.Call) and isinstance(test.func, ast.Name) and test.func.id == "isinstance" and len(test.args) == 2 and isinstance(test.args[0], ast.Name)):
+            return
+        nm = test.args[0].id
+        v = fr.env.get(nm)
+        if not (isinstance(v, SV) and isinstance(v.ty, TUnion)):
+            return
+        try:
+            c = self.eval(test.args[1], fr)
+        except Unsupported:
+            return
+        if isinstance(c, VBuiltin) and c.name == "int":
+            rest = [i for i, a in enumerate(v.ty.alts) if a not in (TInt, TBool)]
+        elif isinstance(c, VBuiltin) and c.name == "list":
+            rest = [i for i, a in enumerate(v.ty.alts) if not (isinstance(a, TSeq) and not a.tuple_)]
+        else:
+            return
+        if len(rest) == 1:
+            i = rest[0]
+            a = v.ty.alts[i]
+            fr.env[nm] = NONE if a is TNone else SV(a, acc(v.ty.proj(i, v.term)))
+
+    def narrow(self, test, fr):
+        """After `isinstance(x, C)` (or a conjunction containing it) was found true, give the local x
+        the narrower static type."""
+        if isinstance(test, ast.BoolOp) and isinstance(test.op, ast.And):
+            for v in test.values:
+                self.narrow(v, fr)
+            return
+        if (isinstance(test, ast.Call) and isinstance(test.func, ast.Name) and test.func.id == "isinstance" and len(test.args) == 2
+                and isinstance(test.args[0], (ast.Attribute, ast.Subscript))):
+            try:
+                c = self.eval(test.args[1], fr)
+            except Unsupported:
+                return
+            if isinstance(c, VClass) and not c.ci.is_protocol:
+                if not hasattr(fr, "narrowed"):
+                    fr.narrowed = {}
+                fr.narrowed[ast.dump(test.args[0])] = c.ci.qname
+            return
+        if isinstance(test, ast.Call) and isinstance(test.func, ast.Name) and test.func.id == "isinstance" and len(test.args) == 2 and isinstance(test.args[0], ast.Name):
+            nm = test.args[0].id
+            v = fr.env.get(nm)
+            try:
+                c = self.eval(test.args[1], fr)
+            except Unsupported:
+                return
+            if isinstance(c, VBuiltin) and isinstance(v, SV) and isinstance(v.ty, TUnion):
+                def fits(a):
+                    n = c.name
+                    return ((n == "int" and a in (TInt, TBool)) or (n == "bool" and a is TBool) or (n == "str" and a is TStr)
+                            or (n == "list" and isinstance(a, TSeq) and not a.tuple_ and not a.bytes_))
+                hits = [i for i, a in enumerate(v.ty.alts) if fits(a)]
+                if len(hits) == 1:
+                    i = hits[0]
+                    fr.env[nm] = SV(v.ty.alts[i], acc(v.ty.proj(i, v.term)))
+                return
+            if isinstance(c, VClass) and isinstance(v, SV) and isinstance(v.ty, TUnion):
+                hits = [i for i, a in enumerate(v.ty.alts) if isinstance(a, TObj)]
+                if len(hits) == 1:
+                    i = hits[0]
+                    fr.env[nm] = SV(v.ty.alts[i], acc(v.ty.proj(i, v.term)))
+                    v = fr.env[nm]
+            if isinstance(c, VClass) and isinstance(v, SV):
+                inner = v
+                if isinstance(v.ty, TOpt) and isinstance(v.ty.inner, TObj):
+                    inner = SV(v.ty.inner, v.ty.val(v.term))
+                if isinstance(inner.ty, TObj) and not inner.ty.exact and self.w.is_subclass(c.ci.qname, inner.ty.cls) and not c.ci.is_protocol:
+                    exact = len([q for q in self.w.subclasses(c.ci.qname)]) == 1
+                    fr.env[nm] = SV(TObj(c.ci.qname, exact=exact), inner.term)
 
     def s_Try(self, st, fr):
         if st.finalbody:
